@@ -194,7 +194,9 @@ def ref_box(info, lower, upper, band=0.0):
 def ref_huber(info, gamma):
     def f(z):
         if info.ncomp is not None:
-            nrm = _pnorm(info.groups(z), 2, axis=0)
+            # pointwise 2-norm over the components WITH the product-space weights (the library
+            # uses PointwiseNorm(domain, 2)); equal to the plain norm for unweighted products
+            nrm = _wpnorm(info, info.groups(z), 2)
             w = info.wb
         else:
             nrm = np.abs(z)
@@ -357,7 +359,7 @@ def _huberdom(info, o):
 
     def pred(z):
         if info.ncomp is not None:
-            nrm = _pnorm(info.groups(z), 2, axis=0)
+            nrm = _wpnorm(info, info.groups(z), 2)
         else:
             nrm = np.abs(z)
         return bool(np.all(np.abs(nrm - gam) > 1e-3))
